@@ -12,9 +12,8 @@ CONTRACTS = {
         lemmas=['cnt2_bounds'],
         ensures=[
             # the largest joint-value frequency: max over value pairs of (#rows with that pair) / n
-            ('largest_joint_frequency',
-             'exists(lambda M: result == M / len(array1) and '
-             f'forall(lambda p: {_C2} <= M, "tuple[int,int]") and exists(lambda p: {_C2} == M, "tuple[int,int]"))'),
+            ('no_pair_is_more_frequent', f'forall(lambda p: {_C2} / len(array1) <= result, "tuple[int,int]")'),
+            ('some_pair_attains_it', f'exists(lambda p: {_C2} / len(array1) == result, "tuple[int,int]")'),
         ],
         loops={1: dict(index='k', inv=[
             ('counts', 'forall(lambda p: counts[p] == cnt2(array1, array2, p[0], p[1], k), "tuple[int,int]")'),
